@@ -17,7 +17,8 @@
 EXTENDS Sem, Ast, Json
 
 CONSTANTS Modes,     \* subset of {"vv", "ll", "vl", "lv"}: how (Xh, Yh) are written
-          Ctxs       \* subset of {"mod", "def"}
+          Ctxs,      \* subset of {"mod", "def"}
+          YCat, ZCat \* catalogue indices that the second / third hole of the three-hole forms range over
 
 S(cp) == AStr(cp)
 Cat == <<
@@ -163,6 +164,36 @@ Form3(f, Xh) ==     \* [recv, stmts]
         CASE f = 27 -> <<SAug("+", TVar("r"), Xh)>>
           [] f = 28 -> <<SAug("*", TVar("r"), Xh)>>
           [] f = 29 -> <<SAug("%", TVar("r"), Xh)>>]
+(* the forms with three holes (the third written like the second) *)
+NB4 == 26
+Form4(f, Xh, Yh, Zh) ==
+    CASE f = 1  -> Sl(Xh, Yh, Zh, ABSENT)
+      [] f = 2  -> Sl(Xh, ABSENT, Yh, Zh)
+      [] f = 3  -> Sl(Xh, Yh, ABSENT, Zh)
+      [] f = 4  -> IfE(Xh, Yh, Zh)
+      [] f = 5  -> MC(Xh, "replace", <<Yh, Zh>>)
+      [] f = 6  -> MC(Xh, "find", <<Yh, Zh>>)
+      [] f = 7  -> MC(Xh, "count", <<Yh, Zh>>)
+      [] f = 8  -> MC(Xh, "split", <<Yh, Zh>>)
+      [] f = 9  -> MC(Xh, "rsplit", <<Yh, Zh>>)
+      [] f = 10 -> MC(Xh, "get", <<Yh, Zh>>)
+      [] f = 11 -> MC(Xh, "index", <<Yh, Zh>>)
+      [] f = 12 -> MC(Xh, "rfind", <<Yh, Zh>>)
+      [] f = 13 -> Call("range", <<Xh, Yh, Zh>>)
+      [] f = 14 -> Call("min", <<Xh, Yh, Zh>>)
+      [] f = 15 -> Call("max", <<AList(<<Xh, Yh, Zh>>)>>)
+      [] f = 16 -> Call("sorted", <<AList(<<Xh, Yh, Zh>>)>>)
+      [] f = 17 -> ABin("%", Xh, ATuple(<<Yh, Zh>>))
+      [] f = 18 -> MC(Xh, "format", <<Yh, Zh>>)
+      [] f = 19 -> ABin("*", ABin("+", Xh, Yh), Zh)
+      [] f = 20 -> ABin("+", Xh, ABin("*", Yh, Zh))
+      [] f = 21 -> AIndex(ABin("+", Xh, Yh), Zh)
+      [] f = 22 -> AIndex(AIndex(Xh, Yh), Zh)
+      [] f = 23 -> Lg("and", Xh, Lg("or", Yh, Zh))
+      [] f = 24 -> AIndex(ADict(<<Xh>>, <<Yh>>), Zh)
+      [] f = 25 -> ADict(<<Xh, Zh>>, <<Yh, Yh>>)
+      [] f = 26 -> ABin("in", Zh, AList(<<Xh, Yh>>))
+
 (* ---- a case as a chunk *)
 Hole(i, mode, pname) == IF mode = "l" THEN Cat[i].e ELSE AVar(pname)
 Case3(f, a, md, ctx) ==
@@ -185,6 +216,14 @@ Case2(f, a, b, md, ctx) ==
         my == IF md[2] = "v" THEN "v" ELSE "l"
     IN IF ctx = "mod" THEN ChunkMod(Form2(f, Hole(a, mx, Cat[a].n), Hole(b, my, Cat[b].n)))
        ELSE ChunkDef(Form2(f, Hole(a, mx, "p"), Hole(b, my, "q")), a, b)
+ChunkDef3(expr, a, b, c) ==
+    <<SDef("fx", <<AParam("p", <<112>>), AParam("q", <<113>>), AParam("w", <<119>>)>>, <<SReturn(expr)>>),
+      SEmit(Call("fx", <<AVar(Cat[a].n), AVar(Cat[b].n), AVar(Cat[c].n)>>))>>
+Case4(f, a, b, c, md, ctx) ==
+    LET mx == IF md[1] = "v" THEN "v" ELSE "l"
+        my == IF md[2] = "v" THEN "v" ELSE "l"
+    IN IF ctx = "mod" THEN ChunkMod(Form4(f, Hole(a, mx, Cat[a].n), Hole(b, my, Cat[b].n), Hole(c, my, Cat[c].n)))
+       ELSE ChunkDef3(Form4(f, Hole(a, mx, "p"), Hole(b, my, "q"), Hole(c, my, "w")), a, b, c)
 Case1(f, a, md, ctx) ==
     LET mx == IF md[1] = "v" THEN "v" ELSE "l"
     IN IF ctx = "mod" THEN ChunkMod(Form1(f, Hole(a, mx, Cat[a].n)))
@@ -204,6 +243,14 @@ Cases2(f, a) ==
         Flatten([mi \in 1..Len(ModeSeq) |->
             [ci \in 1..Len(CtxSeq) |-> [b |-> b, md |-> ModeSeq[mi], ctx |-> CtxSeq[ci],
                                        chunk |-> Case2(f, a, b, ModeTup(ModeSeq[mi]), CtxSeq[ci])]]], 1)], 1)
+ZSeq == SetToSeq(ZCat)
+YSeq == SetToSeq(YCat)
+Cases4(f, a) ==
+    Flatten([yi \in 1..Len(YSeq) |->
+      Flatten([zi \in 1..Len(ZSeq) |->
+        Flatten([mi \in 1..Len(ModeSeq) |->
+            [ci \in 1..Len(CtxSeq) |-> [b |-> YSeq[yi] * 100 + ZSeq[zi], md |-> ModeSeq[mi], ctx |-> CtxSeq[ci],
+                                       chunk |-> Case4(f, a, YSeq[yi], ZSeq[zi], ModeTup(ModeSeq[mi]), CtxSeq[ci])]]], 1)], 1)], 1)
 Cases1(f, a) ==
     Flatten([mi \in 1..2 |->
         [ci \in 1..Len(CtxSeq) |-> [b |-> 0, md |-> (IF mi = 1 THEN "v" ELSE "l"), ctx |-> CtxSeq[ci],
@@ -215,12 +262,13 @@ Cases3(f, a) ==
                                    chunk |-> Case3(f, a, (IF mi = 1 THEN <<"v">> ELSE <<"l">>), CtxSeq[ci])]]], 1)
 
 VARIABLES gAr, gF, gA, gDone
-Init == /\ gAr \in {1, 2, 3}
-        /\ gF \in 1..(IF gAr = 2 THEN NB2 ELSE IF gAr = 3 THEN NB3 ELSE NB1)
+Init == /\ gAr \in (IF ZCat = {} THEN {1, 2, 3} ELSE {1, 2, 3, 4})
+        /\ gF \in 1..(IF gAr = 2 THEN NB2 ELSE IF gAr = 3 THEN NB3 ELSE IF gAr = 4 THEN NB4 ELSE NB1)
         /\ gA \in 1..NC
         /\ gDone = FALSE
 Next == /\ ~gDone /\ gDone' = TRUE /\ UNCHANGED <<gAr, gF, gA>>
-        /\ LET cs == IF gAr = 2 THEN Cases2(gF, gA) ELSE IF gAr = 3 THEN Cases3(gF, gA) ELSE Cases1(gF, gA)
+        /\ LET cs == IF gAr = 2 THEN Cases2(gF, gA) ELSE IF gAr = 3 THEN Cases3(gF, gA)
+                     ELSE IF gAr = 4 THEN Cases4(gF, gA) ELSE Cases1(gF, gA)
                chunks == <<Prelude>> \o [i \in 1..Len(cs) |-> cs[i].chunk]
                r == RunSession(chunks, 50, FALSE).res
            IN PrintT(<<"CASE", ToJson([ar |-> gAr, f |-> gF, a |-> gA,
